@@ -734,6 +734,29 @@ pub fn endo_boundary_scalars<G: GroupApi>(rng: &mut Rng, count: usize) -> Vec<Ve
     let es: Vec<BigUint> = [&u.0, &u.1, &v.0, &v.1].iter().map(|x| x.magnitude().clone())
         .filter(|x| *x > one).collect();
     let mut out = Vec::new();
+    // scalars whose split (k0, k1) sits near a corner of the fundamental cell of the reduced basis: the halves reach
+    // their largest magnitudes (top digit of their recoding) with every sign combination.  (k0, k1) = s*u + t*v with
+    // |s|, |t| just below 1/2; the scalar is k0 + k1*mu for either sign of mu.
+    {
+        let mu_i = BigInt::from_biguint(Sign::Plus, {
+            let mut g = 2u32;
+            loop { let m = BigUint::from(g).modpow(&((&r - 1u32) / order), &r);
+                   let sq = (&m * &m) % &r;
+                   if (order == 4 && sq == &r - 1u32) || (order == 3 && m != one) { break m; } g += 1; } });
+        let half = BigInt::from(1) << 63;
+        let modr = |x: BigInt| -> BigUint { let m = ((x % &ri) + &ri) % &ri; m.to_biguint().unwrap() };
+        for i in 0..(count / 3).max(8) {
+            let e1 = 1 + rng.below(40); let e2 = 1 + rng.below(40);
+            let j1 = BigInt::from((rng.u64() >> e1) | 1); let j2 = BigInt::from((rng.u64() >> e2) | 1);
+            let sg = |b: bool, x: BigInt| if b { -x } else { x };
+            let sn = sg(i & 1 != 0, &half - &j1);          // s * 2^64
+            let tn = sg(i & 2 != 0, &half - &j2);          // t * 2^64
+            let k0: BigInt = (&sn * &u.0 + &tn * &v.0) >> 64;
+            let k1: BigInt = (&sn * &u.1 + &tn * &v.1) >> 64;
+            let mu_s = if i & 4 != 0 { -mu_i.clone() } else { mu_i.clone() };
+            out.push(to_le(&modr(&k0 + &k1 * &mu_s), G::SC_LEN));
+        }
+    }
     while out.len() < count {
         let e = rng.pick(&es).clone();
         let eb = e.bits() as usize;
@@ -1027,6 +1050,22 @@ fn run_vh_top<G: GroupApi>(tr: &mut Trace, rng: &mut Rng, plan: &Plan) {
 fn run_mamv<G: GroupApi>(tr: &mut Trace, rng: &mut Rng, plan: &Plan) {
     run_vh_pow2::<G>(tr, rng, plan);
     let scalars = scalar_classes::<G>(rng, plan.scalars);
+    // endomorphism curves: every lattice-derived boundary scalar (cell corners: largest split halves with every sign
+    // combination; quotient-estimate boundaries) as the multiplier u, and its opposite
+    {
+        let eb = endo_boundary_scalars::<G>(rng, (plan.scalars / 2).max(24));
+        if !eb.is_empty() {
+            let n = G::order();
+            let mut m = Mach::<G>::new(tr);
+            let mut ok = m.cst(1, "BASE") && m.mulgen(2, &rng.bytes(G::SC_LEN), 0);
+            for (i, u) in eb.iter().enumerate() {
+                if !ok { m = Mach::<G>::new(tr); ok = m.cst(1, "BASE") && m.mulgen(2, &rng.bytes(G::SC_LEN), 0); if !ok { break; } }
+                let un = to_le(&((&n - BigUint::from_bytes_le(u) % &n) % &n), G::SC_LEN);
+                let w = rng.pick(&scalars).clone();
+                ok = m.mamv(6, 2, u, &w, i as u32) && m.mamv(7, 2, &un, &w, i as u32);
+            }
+        }
+    }
     let sp = G::special_encodings();
     let mut m = Mach::<G>::new(tr);
     let mut ok = false;
